@@ -407,16 +407,28 @@ def run(ctx):
 MANIFEST = {
     'level_text': 'Machine-checked proofs (Coq) on an executable model of lopdf\'s standard security handler written from the Rust '
                   'source (RC4, PKCS#5, the four crypt filters, encrypt_object/decrypt_object, key derivation and authentication for '
-                  'R2-R6, Document::encrypt/decrypt): RC4 is an involution for every accepted key, PKCS#5 unpad inverts pad, CBC '
-                  'decryption inverts CBC encryption for any block cipher with D(E b) = b, every crypt filter decrypts what it '
-                  'encrypted, AES ciphertexts never equal their plaintext; the model is tied to the implementation by differential '
-                  'runs in both directions (lopdf-encrypt / model-decrypt, model-encrypt / lopdf-decrypt, byte-exact re-encryption '
-                  'with the random choices read back from the ciphertext) and the property is evaluated directly on the crate '
-                  '(user and owner password, in memory and after save/load, wrong passwords rejected without change).',
-    'level_note': 'Trusted: Coq kernel; translator part Crypto (padding string, permission masks, salt, iteration counts); Gallina '
-                  'MD5/SHA-2/AES stand in for the md-5/sha2/aes crates (standard test vectors + differential runs); password '
-                  'preparation (PDFDocEncoding/SASLprep) is outside the model; cryptographic clauses (wrong password rejected, RC4 '
-                  'ciphertext differs) are conditional/sampled. No axioms.',
-    'technique': 'Coq proofs over an executable model + two-way differential correspondence + direct property evaluation',
+                  'R2-R6, EncryptionState::try_from/encode/decode, Document::encrypt/decrypt incl. decrypt_raw\'s object-stream pass): '
+                  'for every document, version (V1; V2 40..128; V4; R5; V5), crypt filter assignment, permission set, password pair and '
+                  'random choices, Document::decrypt after EncryptionState::try_from + Document::encrypt returns Ok with the user '
+                  'password and with the owner password, restores every object (strings at every depth, stream data, stream '
+                  'dictionaries), the trailer exactly, and removes the encryption dictionary (C05_document_rt) -- with NO hypothesis on '
+                  'authentication or key recovery (the dictionary encode writes is read back entry by entry; Algorithms 6/7 and '
+                  '2.A/11/12/13 accept what 3/4/5 and 8/9/10 made) and, for the executable primitives, none on MD5 / AES / SHA-2 either '
+                  '(output sizes and AES invertibility proved). RC4 is an involution, PKCS#5 unpad inverts pad, CBC decryption inverts '
+                  'encryption, AES ciphertexts never equal their plaintext, a failed authentication writes nothing. The model is tied to '
+                  'the implementation by differential runs in both directions (lopdf-encrypt / model-decrypt, model-encrypt / '
+                  'lopdf-decrypt, byte-exact re-encryption with the random choices read back from the ciphertext, documents with object '
+                  'streams whose members appear on decrypt) and the property is evaluated directly on the crate (user and owner '
+                  'password, in memory and after save/load, wrong passwords rejected without change).',
+    'level_note': 'Conditional, because cryptographic rather than logical: an owner password (R2-4) that also passes the user check '
+                  'with a different padded form, a user password (R5/6) that also passes the owner check with a different truncated '
+                  'form; "a wrong password is rejected" and "RC4 ciphertext of 16 bytes or more differs" (conditional theorems + '
+                  'sampling). Trusted: Coq kernel; translator part Crypto (padding string, permission masks, salt, iteration counts); '
+                  'that the Gallina MD5/SHA-2/AES are MD5/SHA-2/AES (standard test vectors + differential runs; the laws the theorems '
+                  'use are proved); Stream::decompress is a parameter (object streams carrying a Filter: no correspondence); password '
+                  'preparation (PDFDocEncoding/SASLprep) is outside the model; save + reload is evaluated on the implementation, not '
+                  'composed with C01 in Coq. No axioms.',
+    'technique': 'Coq proofs over an executable model (transporting the C06 refinement to ISO 32000) + two-way differential '
+                 'correspondence + direct property evaluation',
     'design_ref': 'DESIGN.md 6 C05',
 }
